@@ -1,3 +1,53 @@
-From AV Require Import Spec.C02.
-Theorem C02_placeholder : True. Proof. exact I. Qed.
-Print Assumptions C02_placeholder.
+(* C02 — Downgrade plan removes exactly the applied dependents, children first.
+   Statement-only file.  `input02 = (history, resolved target (None = base), branch revision, current rows)`. *)
+From AV Require Import Spec.C02 Proofs.PlanProof Proofs.C01Proof Proofs.C02Proof.
+
+(* the full property for the model, every well-formed acyclic history, every row set, every resolved target:
+   a plan lists exactly the revisions that descend from (or depend on) the roots and are implied by the rows,
+   each once, children first, never the target nor its prerequisites; an empty plan only when the database
+   is at the target; refusal (RangeNotAncestorError) exactly for an empty set away from the target *)
+Theorem C02_model_holds : forall G, wf_refs G -> ~ cyclic (all_down G) -> ndeps_ok G ->
+  forall target branch Cur, C02_holds (G, target, branch, Cur) (downgrade_plan G target branch Cur).
+Proof. exact downgrade_plan_result. Qed.
+Print Assumptions C02_model_holds.
+
+Theorem C02_plan_exact : forall G target branch Cur plan,
+  wf_refs G -> ~ cyclic (all_down G) -> ndeps_ok G ->
+  downgrade_plan G target branch Cur = POk plan ->
+  let R := roots_of G target branch in
+    NoDup plan /\
+    (forall r, In r plan <-> DescOf G R r /\ AncOf G Cur r) /\
+    (forall pre r post, plan = pre ++ r :: post ->
+       forall c, AncOf G Cur c -> In r (all_down G c) -> In c pre) /\
+    (forall t, target = Some t -> forall a, Anc G t a -> ~ In a plan) /\
+    (plan = [] -> forall t, target = Some t -> In t Cur).
+Proof. intros G target branch Cur plan WF AC NOK E. pose proof (downgrade_plan_result G WF AC NOK target branch Cur) as H.
+  rewrite E in H. exact H. Qed.
+Print Assumptions C02_plan_exact.
+
+(* never out of fuel, never `assert not todo`; the only refusals are the two documented ones, each with its reason *)
+Theorem C02_total : forall G target branch Cur e,
+  wf_refs G -> ~ cyclic (all_down G) -> ndeps_ok G ->
+  downgrade_plan G target branch Cur = PErr e ->
+  (e = PERange /\ exists t, target = Some t /\ ~ In t Cur /\
+       forall r, ~ (DescOf G (roots_of G target branch) r /\ AncOf G Cur r))
+  \/ (e = PERevision /\ roots_of G target branch = [] /\ branch <> None).
+Proof. intros G target branch Cur e WF AC NOK E. pose proof (downgrade_plan_result G WF AC NOK target branch Cur) as H.
+  rewrite E in H. destruct e; try contradiction; [left|right]; auto. Qed.
+Print Assumptions C02_total.
+
+Theorem C02_decider_sound : forall G, wf_refs G -> ~ cyclic (all_down G) ->
+  forall target branch Cur out,
+  check_C02 (G, target, branch, Cur) out = true -> C02_holds (G, target, branch, Cur) out.
+Proof. exact decider_sound. Qed.
+Print Assumptions C02_decider_sound.
+
+(* non-vacuity: branch point 0 with children 1 and 2, merge 3 of (1,2), second root 4, 5 on 4 depending on 3 *)
+Definition ex_G : graph :=
+  [mkRev 0 [] [] [] []; mkRev 1 [0] [] [] []; mkRev 2 [0] [] [] []; mkRev 3 [1;2] [] [] [];
+   mkRev 4 [] [] [] []; mkRev 5 [4] [3] [3] []]%N.
+Example C02_nonvacuous : wf_graphb ex_G = true
+  /\ downgrade_plan ex_G (Some 1)%N None [5]%N = POk [5; 3]%N
+  /\ check_C02 (ex_G, Some 1, None, [5])%N (POk [5; 3]%N) = true
+  /\ downgrade_plan ex_G (Some 5)%N None [3]%N = PErr PERange.
+Proof. vm_compute. auto. Qed.
